@@ -1,8 +1,8 @@
 SPECIFICATION Spec
 CONSTANTS
   Deviations <- AllDevs
-  Fams <- FamsAll
-  Modes <- ModesAll
+  Fams <- FamsGqa
+  Modes <- ModesChain
   Big = FALSE
 INVARIANT NeverGqaSafe
 CHECK_DEADLOCK FALSE
